@@ -17,6 +17,7 @@ CHECKS = {
  'C10': ('proof', "Verus proves finalise_copy and the libfs metadata helpers against fchmod/futimens/fchown/fsync/xattr stand-ins: exact mode (incl. set-ID bits after chown), ns-exact times, xattrs, owner, and that disabled attributes cause no event.", '§5 C10'),
  'C11': ('proof', "Write-footprint postconditions proved by Verus: both drivers write only inside source data ranges (plus merge gaps); the destination is sized with ftruncate, not writes. Whether the filesystem then allocates is the kernel's business.", '§5 C11'),
  'C12': ('proof', "Verus proves that the sizes announced by the walker sum to the total length of the regular files walked (whole tree_walker, recursive sum), that Size is sent immediately before the Copy is queued, that every Copied(n) passed to the updater equals bytes actually transferred, and that ChannelUpdater batching never forwards more than it was given. Partial: channel closing and cross-thread order are not decided.", '§5 C12'),
+ 'C13': ('proof', "Verus proves on the whole tree_walker that the walk is built to follow links exactly when --dereference is set (so the contents of linked directories are walked, and loops arrive as error items, which are never swallowed), and on its per-entry slice that under --dereference no Link operation is ever queued, every entry is classified by what its canonical path leads to (file behind links -> Copy of the canonical path, directory behind links -> directory), and an entry that leads nowhere (dangling or cyclic link) makes the run fail; the option reaches the walker unchanged (Config::from). Partial: what walkdir delivers for a given follow_links setting is its documented behaviour, assumed (A-walk: walk_of(root, follow)); that a Copy transfers the referent's bytes is C01.", '§5 C13'),
  'C14': ('proof', "Verus proves copy_node issues exactly one mknod with the source's type, permission bits and device number (st_rdev), the FileType classification table, and the workers' replace/no-clobber logic for special files.", '§5 C14'),
  'C15': ('proof', "Verus proves the try_reflink mode table (never: no clone event; always: Ok only after a successful clone; auto: falls back), the FICLONE errno classification, and that the clone precedes any data copy in both drivers.", '§5 C15'),
  'C16': ('proof', "Verus proves on the validation range of main() (slice) that it has no effect on the file system model at all and that reaching the copy phase implies every rejection class main checks itself has been ruled out (no source, missing source, directory without recursive, several sources onto a non-directory, directory onto a file, source textually equal to destination or its target base); opts_check rejects force+no-clobber. Partial: clap/glob value parsing is external.", '§5 C16'),
@@ -25,7 +26,6 @@ CHECKS = {
 }
 NA = {
  'C06': 'quantifies over thread interleavings; Kani has no threads and Verus would need the program rewritten around permission types (a model)',
- 'C13': "link traversal is decided inside walkdir's iterator (follow_links(false)); a contract on xcp's code would consist only of assumptions about that crate",
  'C17': "the iff is the ignore crate's matcher against git semantics; xcp's own code is two calls into it",
  'C20': 'a bound on simultaneously open descriptors depends on the pool queue and the scheduler; no function-level contract expresses it',
 }
